@@ -233,6 +233,9 @@ func runC16(p *Prog, r *Report) {
 		}
 		r.End()
 	}
+	if want("C16.7") {
+		ruleTableOptions(p, r, "C16.7")
+	}
 	if want("C16.6") {
 		r.Begin("C16.6", "E-GUARD", "filter policy selection: table.NewReader installs a filter policy for a table only if that policy's Name() equals the filter name recorded in the table's metaindex (primary or alternative policy); with no matching policy the table is read unfiltered — never probed with a different policy's Contains", 2)
 		if fn := resolveFn(p, r, "leveldb/table", "NewReader"); fn != nil {
